@@ -100,7 +100,10 @@ class World:
         if isinstance(v, str):
             if v.startswith(simfs.PREFIX):
                 return self.ns + v[len(simfs.PREFIX):]
-            return v
+            # strings reaching a library from its users (config files, argv, json) are never
+            # the library's own interned constants: always hand over a fresh str object, in
+            # generation exactly as in replay (where they come out of json.load anyway)
+            return "".join([v[:1], v[1:]]) if len(v) > 1 else v
         if isinstance(v, dict):
             if "$h" in v:
                 h = v["$h"]
